@@ -22,7 +22,7 @@ MIN_NONTRIVIAL_FRACTION = 0.4
 MAX_S = {"quick": 900, "thorough": 7200}
 
 STO_FEATS = dict(sto_eff=1, sto_costs=1, sto_inflow=1, sto_levels=1, sto_two_nodes=1, sto_blocks=["12h", "d"],
-                 sto_mip=[6.0, 12.0], sto_price=1, sto_size0=1, window=1, wacc=1)
+                 sto_mip=[6.0, 12.0, 48.0], sto_price=1, sto_size0=1, window=1, wacc=1)
 
 
 def price_words(T, tier):
@@ -35,7 +35,7 @@ def price_words(T, tier):
 
 def make_gen(tier):
     def gen(ch):
-        gname = ch.pick("grid", ["4x6h", "5xh", "8x6h", "3xd_spring", "4x6h_d", "12h_partial"])
+        gname = ch.pick("grid", ["4x6h", "5xh", "8x6h", "3xd_spring", "4x6h_d", "12h_partial", "3xd_autumn", "3xMS"])
         gj = dict(S.GRIDS[gname])
         g = Grid.from_json(gj)
         T = g.T
